@@ -171,7 +171,10 @@ func compMaps(
 		return object.BuiltInFalse
 	}
 
-	for hash, pair1 := range *m1.Pairs {
+	// NOTE: pairs are compared in insertion order (not by ranging over the inner map)
+	// so that == of the values is called in the same order in every run
+	for _, hash := range *m1.HashKeys {
+		pair1 := (*m1.Pairs)[hash]
 		pair2, ok := (*m2.Pairs)[hash]
 		if !ok {
 			return object.BuiltInFalse
